@@ -1,6 +1,648 @@
 import Props.Defs
+import Proofs.SortLemmas
+import Proofs.PairingOrder
+import Proofs.ConflictAll
+
+/-!
+  Proofs/Modes.lean — proofs for C08 (output modes, `resolveRows`, `joinRows`).
+
+  Helper lemmas live in `Coma.Proofs.Modes`; the eight theorems used by Props/C08.lean live in
+  `Coma.Proofs`.
+
+  FINDING: `joinRows_union` is FALSE as stated (see `Modes.joinRows_union_counterexample`): an
+  unpaired item of `sa` lying between two of its pairs need not be `lessOnBoth` the first pair of
+  `sb`, so the conflict region of `sa` can be non-empty and the `dropLeft` branch removes a suffix
+  of `sa` that contains pairs.  Proved instead: `Modes.joinRows_union_of_unpaired_before`, with the
+  additional hypothesis `∀ x ∈ sa.items, x.isPair = false → x.lessOnBoth pb = true`.
+-/
+namespace Coma.Proofs.Modes
+open Coma Coma.Spec Coma.Proofs.Conflict
+
+/-! ### closed-term witnesses -/
+
+theorem ex_of_opt {α} {X : Except Err (Option α)} {P : α → Prop} [DecidablePred P]
+    (h : ((X.toOption.bind id).map (fun j => decide (P j))) = some true) :
+    ∃ j, X = .ok (some j) ∧ P j := by
+  cases X with
+  | error e => cases h
+  | ok o =>
+    cases o with
+    | none => cases h
+    | some j =>
+      refine ⟨j, rfl, ?_⟩
+      simpa [Except.toOption] using h
+
+theorem ex_of_ok {α} {X : Except Err α} {P : α → Prop} [DecidablePred P]
+    (h : (X.toOption.map (fun j => decide (P j))) = some true) :
+    ∃ j, X = .ok j ∧ P j := by
+  cases X with
+  | error e => cases h
+  | ok j =>
+      refine ⟨j, rfl, ?_⟩
+      simpa [Except.toOption] using h
+
+/-! ### `joinRows` -/
+
+theorem joinRows_ok {P : Params} {a b j : Row} (h : joinRows P a b = .ok (some j)) :
+    ∃ pa pb sa sb ta tb ua ub l r, a.pairs = pa :: ta ∧ b.pairs = pb :: tb ∧
+      a.segments = sa :: ua ∧ b.segments = sb :: ub ∧
+      ((pa.r.pos < pb.r.pos ∧ resolvePair P sa sb = .ok (l, r)) ∨
+       (¬ pa.r.pos < pb.r.pos ∧ resolvePair P sb sa = .ok (l, r))) ∧
+      j = Row.create P [l, r] a.queryId a.referenceId a.queryLength a.referenceLength a.rev ∧
+      j.isOneToOneAndCollinear = true := by
+  unfold joinRows at h
+  split at h
+  · rename_i pa ta pb tb sa ua sb ub h1 h2 h3 h4
+    simp only [bind, Except.bind, pure, Except.pure] at h
+    by_cases hlt : pa.r.pos < pb.r.pos
+    · rw [if_pos hlt] at h
+      cases hv : resolvePair P sa sb with
+      | error e => rw [hv] at h; cases h
+      | ok v =>
+        obtain ⟨l, r⟩ := v
+        rw [hv] at h
+        simp only [Except.ok.injEq] at h
+        split at h
+        · rename_i hc
+          injection h with h
+          subst h
+          exact ⟨pa, pb, sa, sb, ta, tb, ua, ub, l, r, h1, h2, h3, h4, Or.inl ⟨hlt, hv⟩, rfl, hc⟩
+        · cases h
+    · rw [if_neg hlt] at h
+      cases hv : resolvePair P sb sa with
+      | error e => rw [hv] at h; cases h
+      | ok v =>
+        obtain ⟨l, r⟩ := v
+        rw [hv] at h
+        simp only [Except.ok.injEq] at h
+        split at h
+        · rename_i hc
+          injection h with h
+          subst h
+          exact ⟨pa, pb, sa, sb, ta, tb, ua, ub, l, r, h1, h2, h3, h4, Or.inr ⟨hlt, hv⟩, rfl, hc⟩
+        · cases h
+  · cases h
+
+theorem strictlyAscending_iff : ∀ (xs : List Int), strictlyAscending xs = true ↔ xs.Pairwise (· < ·)
+  | [] => by simp [strictlyAscending]
+  | [a] => by simp [strictlyAscending]
+  | a :: b :: t => by
+    have ih := strictlyAscending_iff (b :: t)
+    simp only [strictlyAscending, Bool.and_eq_true, decide_eq_true_eq, ih]
+    constructor
+    · rintro ⟨hab, hp⟩
+      refine List.Pairwise.cons ?_ hp
+      intro x hx
+      rcases List.mem_cons.mp hx with rfl | hx
+      · exact hab
+      · have := List.rel_of_pairwise_cons hp hx
+        omega
+    · intro hp
+      exact ⟨List.rel_of_pairwise_cons hp (List.mem_cons_self ..), (List.pairwise_cons.mp hp).2⟩
+
+theorem valid_of_check {r : Row} (h : r.isOneToOneAndCollinear = true) :
+    r.pairs ≠ [] ∧ ValidMatching r.rev (sitePairs r.pairs) := by
+  unfold Row.isOneToOneAndCollinear at h
+  simp only [Bool.and_eq_true, Bool.not_eq_true', strictlyAscending_iff] at h
+  obtain ⟨⟨h1, h2⟩, h3⟩ := h
+  refine ⟨fun h0 => by simp [h0] at h1, ?_⟩
+  unfold ValidMatching sitePairs
+  rw [List.pairwise_map] at h2 h3 ⊢
+  refine (h2.and h3).imp ?_
+  intro a b ⟨hab, hq⟩
+  refine ⟨hab, ?_⟩
+  cases hr : r.rev <;> simp [hr] at hq ⊢ <;> omega
+
+theorem seg_pairs_subset {l L : Seg} (h : l.items.Sublist L.items) : ∀ p ∈ l.pairs, p ∈ L.pairs :=
+  fun _ hp => (h.filterMap _).subset hp
+
+theorem head_pairs_subset {a : Row} {sa : Seg} {ua : List Seg} (h : a.segments = sa :: ua) :
+    ∀ p ∈ sa.pairs, p ∈ a.pairs := by
+  intro p hp
+  unfold Row.pairs
+  rw [h, List.flatMap_cons]
+  exact List.mem_append_left _ hp
+
+/-! ### `resolveGroups` / `resolveRows` -/
+
+theorem resolveGroups_cons_ok {P : Params} {d : Int} {g : List Row} {gs : List (List Row)} {J S : List Row}
+    (h : resolveGroups P d (g :: gs) = .ok (J, S)) :
+    ∃ j s, resolveGroups P d gs = .ok (j, s) ∧
+      ((g = [] ∧ J = j ∧ S = s) ∨ (∃ x, g = [x] ∧ J = j ∧ S = x :: s) ∨
+       (∃ x y rest, g = x :: y :: rest ∧
+          ((∃ r, checkOverlap x y d = true ∧ joinRows P x y = .ok (some r) ∧ J = r :: j ∧ S = s) ∨
+           (J = j ∧ S = x :: y :: rest ++ s)))) := by
+  simp only [resolveGroups, bind, Except.bind, pure, Except.pure] at h
+  cases hr : resolveGroups P d gs with
+  | error e => rw [hr] at h; cases h
+  | ok v =>
+    obtain ⟨j, s⟩ := v
+    rw [hr] at h
+    refine ⟨j, s, rfl, ?_⟩
+    match g, h with
+    | [], h =>
+      simp only [Except.ok.injEq, Prod.mk.injEq] at h
+      exact Or.inl ⟨rfl, h.1.symm, h.2.symm⟩
+    | [x], h =>
+      simp only [Except.ok.injEq, Prod.mk.injEq] at h
+      exact Or.inr (Or.inl ⟨x, rfl, h.1.symm, h.2.symm⟩)
+    | x :: y :: rest, h =>
+      refine Or.inr (Or.inr ⟨x, y, rest, rfl, ?_⟩)
+      simp only at h
+      by_cases hc : checkOverlap x y d = true
+      · rw [if_pos hc] at h
+        cases hj : joinRows P x y with
+        | error e => rw [hj] at h; cases h
+        | ok o =>
+          rw [hj] at h
+          cases o with
+          | none =>
+            simp only [Except.ok.injEq, Prod.mk.injEq] at h
+            exact Or.inr ⟨h.1.symm, h.2.symm⟩
+          | some r =>
+            simp only [Except.ok.injEq, Prod.mk.injEq] at h
+            exact Or.inl ⟨r, hc, rfl, h.1.symm, h.2.symm⟩
+      · rw [if_neg hc] at h
+        simp only [Except.ok.injEq, Prod.mk.injEq] at h
+        exact Or.inr ⟨h.1.symm, h.2.symm⟩
+
+theorem resolveGroups_joined {P : Params} {d : Int} : ∀ {gs : List (List Row)} {J S : List Row},
+    resolveGroups P d gs = .ok (J, S) →
+    ∀ r ∈ J, ∃ g ∈ gs, ∃ x y rest, g = x :: y :: rest ∧ checkOverlap x y d = true ∧
+      joinRows P x y = .ok (some r)
+  | [], J, S, h => by
+    simp only [resolveGroups, Except.ok.injEq, Prod.mk.injEq] at h
+    intro r hr; rw [← h.1] at hr; cases hr
+  | g :: gs, J, S, h => by
+    obtain ⟨j, s, hr, hc⟩ := resolveGroups_cons_ok h
+    have ih := resolveGroups_joined hr
+    have lift : ∀ r ∈ j, ∃ g' ∈ g :: gs, ∃ x y rest, g' = x :: y :: rest ∧ checkOverlap x y d = true ∧
+        joinRows P x y = .ok (some r) := by
+      intro r hr
+      obtain ⟨g', hg', rest⟩ := ih r hr
+      exact ⟨g', List.mem_cons_of_mem _ hg', rest⟩
+    rcases hc with ⟨_, rfl, _⟩ | ⟨x, _, rfl, _⟩ | ⟨x, y, rest, hg, ⟨r, hov, hjn, rfl, _⟩ | ⟨rfl, _⟩⟩
+    · exact lift
+    · exact lift
+    · intro r' hr'
+      rcases List.mem_cons.mp hr' with rfl | hr'
+      · exact ⟨g, List.mem_cons_self, x, y, rest, hg, hov, hjn⟩
+      · exact lift r' hr'
+    · exact lift
+
+theorem resolveGroups_count {P : Params} {d : Int} : ∀ {gs : List (List Row)} {J S : List Row},
+    resolveGroups P d gs = .ok (J, S) → (∀ g ∈ gs, g.length ≤ 2) →
+    S.length + 2 * J.length = (gs.map List.length).sum ∧ ∀ x ∈ S, ∃ g ∈ gs, x ∈ g
+  | [], J, S, h, _ => by
+    simp only [resolveGroups, Except.ok.injEq, Prod.mk.injEq] at h
+    rw [← h.1, ← h.2]; simp
+  | g :: gs, J, S, h, h2 => by
+    obtain ⟨j, s, hr, hc⟩ := resolveGroups_cons_ok h
+    obtain ⟨ih1, ih2⟩ := resolveGroups_count hr (fun g' hg' => h2 g' (List.mem_cons_of_mem _ hg'))
+    have lift : ∀ x ∈ s, ∃ g' ∈ g :: gs, x ∈ g' := by
+      intro x hx
+      obtain ⟨g', hg', hxg⟩ := ih2 x hx
+      exact ⟨g', List.mem_cons_of_mem _ hg', hxg⟩
+    have hlen := h2 g List.mem_cons_self
+    rcases hc with ⟨rfl, rfl, rfl⟩ | ⟨x, rfl, rfl, rfl⟩ | ⟨x, y, rest, rfl, ⟨r, hov, hjn, rfl, rfl⟩ | ⟨rfl, rfl⟩⟩
+    · refine ⟨by simpa using ih1, lift⟩
+    · refine ⟨by simp only [List.map_cons, List.sum_cons, List.length_cons, List.length_nil]; omega, ?_⟩
+      intro z hz
+      rcases List.mem_cons.mp hz with rfl | hz
+      · exact ⟨[z], List.mem_cons_self, List.mem_cons_self⟩
+      · exact lift z hz
+    · have : rest = [] := by
+        cases rest with
+        | nil => rfl
+        | cons _ _ => simp at hlen
+      subst this
+      refine ⟨by simp only [List.map_cons, List.sum_cons, List.length_cons, List.length_nil]; omega, lift⟩
+    · refine ⟨by simp only [List.map_cons, List.sum_cons, List.length_cons, List.length_append]; omega, ?_⟩
+      intro z hz
+      rcases List.mem_append.mp hz with hz | hz
+      · exact ⟨_, List.mem_cons_self, hz⟩
+      · exact lift z hz
+
+
+/-- the list of groups `resolveRows` iterates over -/
+def groupsOf (rows : List Row) : List (List Row) :=
+  (groupAdj (fun r => r.referenceId) (isort (fun r => r.referenceId) rows)).flatMap
+    fun g => groupAdj (fun r => r.queryId) (isort (fun r => r.queryId) g)
+
+theorem resolveRows_eq (P : Params) (d : Int) (rows : List Row) :
+    resolveRows P d rows = resolveGroups P d (groupsOf rows) := rfl
+
+theorem sum_length_regroup (k : Row → Int) : ∀ (GS : List (List Row)),
+    ((GS.flatMap fun g => groupAdj k (isort k g)).map List.length).sum = (GS.map List.length).sum
+  | [] => rfl
+  | g :: GS => by
+    rw [List.flatMap_cons, List.map_append, List.sum_append, sum_length_regroup k GS, List.map_cons,
+      List.sum_cons, ← List.length_flatten, groupAdj_flatten, isort_length]
+
+theorem groupsOf_sum_length (rows : List Row) : ((groupsOf rows).map List.length).sum = rows.length := by
+  unfold groupsOf
+  rw [sum_length_regroup, ← List.length_flatten, groupAdj_flatten, isort_length]
+
+theorem sorted' {α} (key : α → Int) (l : List α) :
+    (isort key l).Pairwise (fun a b => key a ≤ key b) := by
+  have := isort_sorted key l
+  rwa [List.pairwise_map] at this
+
+/-- every group is a full (reference, query) class of the input -/
+theorem groupsOf_class {rows g : List Row} (hg : g ∈ groupsOf rows) :
+    ∃ q r, g = rows.filter (fun x => x.queryId = q ∧ x.referenceId = r) := by
+  unfold groupsOf at hg
+  obtain ⟨G, hG, hg⟩ := List.mem_flatMap.mp hg
+  obtain ⟨y, _, hGy⟩ := (PO.mem_groupAdj_sorted _ (sorted' _ _) G).mp hG
+  obtain ⟨x, _, hgx⟩ := (PO.mem_groupAdj_sorted _ (sorted' _ _) g).mp hg
+  rw [PO.filter_isort] at hGy hgx
+  refine ⟨x.queryId, y.referenceId, ?_⟩
+  rw [hgx, hGy, List.filter_filter]
+  apply List.filter_congr
+  intro a _
+  simp
+
+theorem groupsOf_mem {rows g : List Row} (hg : g ∈ groupsOf rows) : ∀ x ∈ g, x ∈ rows := by
+  obtain ⟨q, r, rfl⟩ := groupsOf_class hg
+  intro x hx
+  exact (List.mem_filter.mp hx).1
+
+theorem groupsOf_qid {rows g : List Row} (hg : g ∈ groupsOf rows) :
+    ∀ x ∈ g, ∀ y ∈ g, x.queryId = y.queryId := by
+  obtain ⟨q, r, rfl⟩ := groupsOf_class hg
+  intro x hx y hy
+  have h1 := (List.mem_filter.mp hx).2
+  have h2 := (List.mem_filter.mp hy).2
+  simp only [decide_eq_true_eq] at h1 h2
+  rw [h1.1, h2.1]
+
+/-! ### first / second pass flags -/
+
+/-! ### `List.mapM` in `Except` -/
+
+theorem mapM_ok_mem {α β} (f : α → Except Err β) : ∀ (l : List α) (rs : List β),
+    l.mapM f = .ok rs → ∀ r ∈ rs, ∃ x ∈ l, f x = .ok r
+  | [], rs, h => by
+    simp only [List.mapM_nil, pure, Except.pure, Except.ok.injEq] at h
+    intro r hr; rw [← h] at hr; cases hr
+  | a :: l, rs, h => by
+    rw [List.mapM_cons] at h
+    simp only [bind, Except.bind, pure, Except.pure] at h
+    cases ha : f a with
+    | error e => rw [ha] at h; cases h
+    | ok b =>
+      rw [ha] at h
+      cases hl : l.mapM f with
+      | error e => rw [hl] at h; cases h
+      | ok bs =>
+        rw [hl] at h
+        simp only [Except.ok.injEq] at h
+        subst h
+        intro r hr
+        rcases List.mem_cons.mp hr with rfl | hr
+        · exact ⟨a, List.mem_cons_self, ha⟩
+        · obtain ⟨x, hx, hfx⟩ := mapM_ok_mem f l bs hl r hr
+          exact ⟨x, List.mem_cons_of_mem _ hx, hfx⟩
+
+theorem alignerAlign_flag {P : Params} {C : ChainCfg} {ref qry : OMap} {peaks : List Int} {rev : Bool} {it : Int}
+    {row : Row} (h : alignerAlign P C ref qry peaks rev it = .ok row) : row.alignedRest = false := by
+  unfold alignerAlign at h
+  simp only [bind, Except.bind, pure, Except.pure] at h
+  cases h1 : segmentsOfPeaks P ref qry rev it peaks with
+  | error e => rw [h1] at h; cases h
+  | ok segs =>
+    rw [h1] at h
+    simp only at h
+    cases h2 : resolveConflicts P C segs with
+    | error e => rw [h2] at h; cases h
+    | ok res =>
+      rw [h2] at h
+      simp only [Except.ok.injEq] at h
+      rw [← h]; rfl
+
+theorem bestRow_mem {rows : List Row} {r : Row} (h : bestRow rows = some r) : r ∈ rows := by
+  unfold bestRow isortDesc at h
+  exact (mem_isort _ _ _).mp (List.mem_of_head? h)
+
+theorem perQuery_flag {cfg : Cfg} {refs : List OMap} {seeds : List Seed} {q : OMap} {it : Int} {row : Row}
+    (h : perQuery cfg refs seeds q it = .ok (some row)) : row.alignedRest = false := by
+  unfold perQuery at h
+  split at h
+  · cases h
+  · simp only [bind, Except.bind, pure, Except.pure] at h
+    split at h
+    · cases h
+    · rename_i rows hrows
+      simp only [Except.ok.injEq] at h
+      obtain ⟨s, _, hs⟩ := mapM_ok_mem _ _ _ hrows row (bestRow_mem h)
+      split at hs
+      · cases hs
+      · exact alignerAlign_flag hs
+
+theorem executeSingle_flag {cfg : Cfg} {refs : List OMap} {t : SeedTable} {qs : List OMap} {it : Int}
+    {rows : List Row} (h : executeSingle cfg refs t qs it = .ok rows) : ∀ r ∈ rows, r.alignedRest = false := by
+  unfold executeSingle at h
+  simp only [bind, Except.bind, pure, Except.pure] at h
+  split at h
+  · cases h
+  · rename_i rs hrs
+    simp only [Except.ok.injEq] at h
+    subst h
+    intro r hr
+    obtain ⟨o, ho, hor⟩ := List.mem_filterMap.mp hr
+    cases o with
+    | none => cases hor
+    | some row =>
+      simp only at hor
+      split at hor
+      · cases hor
+      · injection hor with hor
+        subst hor
+        obtain ⟨q, _, hq⟩ := mapM_ok_mem _ _ _ hrs _ ho
+        exact perQuery_flag hq
+
+theorem secondPass_flag {cfg : Cfg} {refs : List OMap} {t : SeedTable} {qs : List OMap} {first : List Row} {it : Int}
+    {rows : List Row} (h : secondPass cfg refs t qs first it = .ok rows) : ∀ r ∈ rows, r.alignedRest = true := by
+  unfold secondPass at h
+  simp only [bind, Except.bind, pure, Except.pure] at h
+  split at h
+  · cases h
+  · split at h
+    · cases h
+    · simp only [Except.ok.injEq] at h
+      subst h
+      intro r hr
+      obtain ⟨r', _, rfl⟩ := List.mem_map.mp hr
+      rfl
+
+theorem filterBest_mem {rows : List Row} {r : Row} (h : r ∈ filterBestPerQuery rows) : r ∈ rows := by
+  unfold filterBestPerQuery at h
+  obtain ⟨g, hg, hr⟩ := List.mem_filterMap.mp h
+  have := mem_of_mem_groupAdj _ _ g r hg (List.mem_of_head? hr)
+  unfold isortDesc at this
+  exact (mem_isort _ _ _).mp ((mem_isort _ _ _).mp this)
+
+
+/-! ### unfolding `execute` -/
+
+theorem execute_prefix {cfg : Cfg} {mode : Mode} {refs : List OMap} {t : SeedTable} {qs : List OMap} {it : Int}
+    {o : Output} (hm : mode ≠ .single) (h : execute cfg mode refs t qs it = .ok o) :
+    ∃ first second, executeSingle cfg refs t qs it = .ok first ∧
+      secondPass cfg refs t qs first it = .ok second := by
+  unfold execute at h
+  simp only [bind, Except.bind, pure, Except.pure] at h
+  cases h1 : executeSingle cfg refs t qs it with
+  | error e => rw [h1] at h; cases h
+  | ok first =>
+    rw [h1] at h
+    simp only [if_neg hm] at h
+    cases h2 : secondPass cfg refs t qs first it with
+    | error e => rw [h2] at h; cases h
+    | ok second => exact ⟨first, second, rfl, h2⟩
+
+theorem execute_separate {cfg : Cfg} {refs : List OMap} {t : SeedTable} {qs : List OMap} {it : Int}
+    {first second : List Row} (h1 : executeSingle cfg refs t qs it = .ok first)
+    (h2 : secondPass cfg refs t qs first it = .ok second) :
+    execute cfg .separate refs t qs it =
+      .ok { main := filterBestPerQuery (filterBestPerQuery first), extra := [(1, filterBestPerQuery second)] } := by
+  unfold execute
+  simp [bind, Except.bind, pure, Except.pure, h1, h2]
+
+theorem execute_all {cfg : Cfg} {refs : List OMap} {t : SeedTable} {qs : List OMap} {it : Int}
+    {first second : List Row} {oa : Output} (h1 : executeSingle cfg refs t qs it = .ok first)
+    (h2 : secondPass cfg refs t qs first it = .ok second)
+    (h : execute cfg .all refs t qs it = .ok oa) :
+    ∃ joined separate, resolveRows cfg.P cfg.maxDifference
+        (filterBestPerQuery first ++ filterBestPerQuery second) = .ok (joined, separate) ∧
+      oa = { main := filterBestPerQuery joined,
+             extra := [(1, filterBestPerQuery first), (2, filterBestPerQuery second)] } := by
+  unfold execute at h
+  simp only [bind, Except.bind, pure, Except.pure, h1, h2] at h
+  simp only [reduceCtorEq, if_false] at h
+  cases h3 : resolveRows cfg.P cfg.maxDifference (filterBestPerQuery first ++ filterBestPerQuery second) with
+  | error e => rw [h3] at h; cases h
+  | ok v =>
+    obtain ⟨joined, separate⟩ := v
+    rw [h3] at h
+    simp only [Except.ok.injEq] at h
+    exact ⟨joined, separate, rfl, h.symm⟩
+
+theorem execute_joined {cfg : Cfg} {refs : List OMap} {t : SeedTable} {qs : List OMap} {it : Int}
+    {first second : List Row} {oj : Output} (h1 : executeSingle cfg refs t qs it = .ok first)
+    (h2 : secondPass cfg refs t qs first it = .ok second)
+    (h : execute cfg .joined refs t qs it = .ok oj) :
+    ∃ joined separate, resolveRows cfg.P cfg.maxDifference
+        (filterBestPerQuery first ++ filterBestPerQuery second) = .ok (joined, separate) ∧
+      oj = { main := filterBestPerQuery joined, extra := [(1, separate)] } := by
+  unfold execute at h
+  simp only [bind, Except.bind, pure, Except.pure, h1, h2] at h
+  simp only [reduceCtorEq, if_false] at h
+  cases h3 : resolveRows cfg.P cfg.maxDifference (filterBestPerQuery first ++ filterBestPerQuery second) with
+  | error e => rw [h3] at h; cases h
+  | ok v =>
+    obtain ⟨joined, separate⟩ := v
+    rw [h3] at h
+    simp only [Except.ok.injEq] at h
+    exact ⟨joined, separate, rfl, h.symm⟩
+
+/-! ### `filterBestPerQuery` is idempotent -/
+
+/-- a key-sorted permutation of a strictly key-ascending list is that list -/
+theorem sorted_perm_strict {α} (key : α → Int) : ∀ (R L : List α), L.Perm R →
+    (R.map key).Pairwise (· < ·) → (L.map key).Pairwise (· ≤ ·) → L = R
+  | [], L, hp, _, _ => hp.eq_nil
+  | a :: R, [], hp, _, _ => absurd hp.symm.eq_nil (by simp)
+  | a :: R, b :: L, hp, hR, hL => by
+    rw [List.map_cons, List.pairwise_cons] at hR hL
+    have hb : b ∈ a :: R := hp.subset List.mem_cons_self
+    have ha : a ∈ b :: L := hp.symm.subset List.mem_cons_self
+    have hab : b = a := by
+      rcases List.mem_cons.mp hb with h | h
+      · exact h
+      · have h1 := hR.1 _ (List.mem_map_of_mem h)
+        rcases List.mem_cons.mp ha with h' | h'
+        · rw [h'] at h1; omega
+        · have h2 := hL.1 _ (List.mem_map_of_mem h')
+          omega
+    subst hab
+    rw [sorted_perm_strict key R L (List.Perm.cons_inv hp) hR.2 hL.2]
+
+theorem groupAdj_strict {α} (key : α → Int) : ∀ (R : List α), (R.map key).Pairwise (· < ·) →
+    groupAdj key R = R.map (fun x => [x])
+  | [], _ => rfl
+  | [a], _ => rfl
+  | a :: b :: R, h => by
+    rw [List.map_cons, List.pairwise_cons] at h
+    rw [groupAdj_cons, groupAdj_strict key (b :: R) h.2]
+    have : key a ≠ key b := by
+      have := h.1 (key b) (by simp)
+      omega
+    simp [this]
+
+theorem filterMap_head_singletons {α} (R : List α) : (R.map (fun x => [x])).filterMap List.head? = R := by
+  induction R with
+  | nil => rfl
+  | cons a R ih => simp [ih]
+
+theorem filterBest_strict (rows : List Row) :
+    ((filterBestPerQuery rows).map (fun r => r.queryId)).Pairwise (· < ·) := by
+  unfold filterBestPerQuery
+  rw [List.pairwise_map]
+  refine List.Pairwise.filterMap _ ?_ (groupAdj_sorted (fun (r : Row) => r.queryId) _ (isort_sorted _ _))
+  intro g g' hgg b hb b' hb'
+  exact hgg b (List.mem_of_head? hb) b' (List.mem_of_head? hb')
+
+theorem filterBest_of_strict (R : List Row) (h : (R.map (fun r => r.queryId)).Pairwise (· < ·)) :
+    filterBestPerQuery R = R := by
+  unfold filterBestPerQuery
+  have h1 : isort (fun (r : Row) => r.queryId) (isortDesc (fun r => r.confidence) R) = R := by
+    apply sorted_perm_strict (fun (r : Row) => r.queryId) R _ _ h (isort_sorted _ _)
+    exact (isort_perm _ _).trans (isort_perm _ _)
+  rw [h1, groupAdj_strict _ R h, filterMap_head_singletons]
+
+theorem filterBest_idem (rows : List Row) :
+    filterBestPerQuery (filterBestPerQuery rows) = filterBestPerQuery rows :=
+  filterBest_of_strict _ (filterBest_strict rows)
+
+/-! ### the join of two non-interleaving single-segment rows -/
+
+theorem seg_ext {s s' : Seg} (h1 : s.items = s'.items) (h2 : s.peak = s'.peak) : s = s' := by
+  cases s; cases s'; simp_all
+
+/-- a step on two non-interleaving segments, all of whose left items precede the right start,
+    changes nothing -/
+theorem resolve_id {P : Params} {sa sb l r : Seg} {br : Branch} {pb : Pr}
+    (hB : resolvePairB P sa sb = .ok (l, r, br)) (hLa : LeftOK sa) (hRb : RightOK sb)
+    (hpb : sb.pairs.head? = some pb) (hsep : Separated sa sb)
+    (hAll : ∀ x ∈ sa.items, x.lessOnBoth pb = true) : l = sa ∧ r = sb := by
+  obtain ⟨_, _, hpl, hpr⟩ := resolve_sublist P _ _ _ _ _ hB
+  rcases resolve_shape hB hLa hRb with ⟨_, rfl, rfl, _⟩ | ⟨_, _, rfl, rfl, _⟩ |
+    ⟨cs, e, Lc, Rc, t, _, he, hRsh, hLc, hRc, _, hT⟩
+  · exact ⟨rfl, rfl⟩
+  · exact ⟨rfl, rfl⟩
+  · rcases hRsh with ⟨h0, _⟩ | ⟨c, tl, hc, rfl⟩
+    · rw [pairs_nil_of_items_nil h0] at hpb; cases hpb
+    · obtain ⟨_, hp', _⟩ := first_pair hc
+      rw [hp'] at hpb
+      injection hpb with hpb
+      subst hpb
+      have hcR : c ∈ sb.pairs := List.mem_of_head? hp'
+      have heL : e ∈ sa.pairs := List.mem_of_getLast? (last_pair he).2.1
+      have hce := hsep e heL c hcR
+      have hleq : c.leqAny e = false := by
+        unfold Pr.leqAny
+        have n1 : c.q ≠ e.q := fun hh => by rw [hh] at hce; omega
+        have n2 : c.r ≠ e.r := fun hh => by rw [hh] at hce; omega
+        simp [n1, n2]; omega
+      have htk : sa.items.takeWhile (fun p => p.lessOnBoth (SP.pr c).toPr) = sa.items :=
+        takeWhile_eq_self hAll
+      have hdr : sa.items.dropWhile (fun p => p.lessOnBoth (SP.pr c).toPr) = [] := by
+        have := List.takeWhile_append_dropWhile (p := fun (p : APos) => p.lessOnBoth (SP.pr c).toPr) (l := sa.items)
+        rw [htk] at this
+        exact List.append_right_eq_self.mp this
+      have hg : ¬ (!(APos.pair c).isPair || (APos.pair c).leqAny e) = true := by
+        simp [APos.isPair, APos.leqAny, hleq]
+      have htw : sb.items.takeWhile (fun p => !p.isPair || p.leqAny e) = [] := by
+        rw [hc, List.takeWhile_cons, if_neg hg]
+      have hdw : sb.items.dropWhile (fun p => !p.isPair || p.leqAny e) = sb.items := by
+        rw [hc, List.dropWhile_cons, if_neg hg]
+      rw [htw] at hRc
+      have hRc0 : Rc.items = [] := (List.append_eq_nil_iff.mp hRc.symm).1
+      have ht0 : t = [] := (List.append_eq_nil_iff.mp hRc.symm).2
+      rw [hdr] at hLc
+      rcases hT with ⟨_, hl, rfl⟩ | ⟨_, rfl, hr⟩ | ⟨_, li, ri, hl, hr⟩
+      · rw [htk] at hl
+        exact ⟨seg_ext hl hpl, rfl⟩
+      · rw [ht0, hdw, List.nil_append] at hr
+        exact ⟨rfl, seg_ext hr hpr⟩
+      · rw [htk, hLc, List.take_nil, List.append_nil] at hl
+        rw [hRc0, ht0, hdw, List.drop_nil, List.nil_append, List.nil_append] at hr
+        exact ⟨seg_ext hl hpl, seg_ext hr hpr⟩
+
+theorem row_pairs_single {a : Row} {sa : Seg} (ha : a.segments = [sa]) : a.pairs = sa.pairs := by
+  unfold Row.pairs; rw [ha]; simp
+
+theorem joinRows_union_of_unpaired_before (P : Params) (a b : Row) (sa sb : Seg) (pa pb : Pr)
+    (ha : a.segments = [sa]) (hb : b.segments = [sb])
+    (hpa : sa.pairs.head? = some pa) (hpb : sb.pairs.head? = some pb) (hlt : pa.r.pos < pb.r.pos)
+    (hLa : LeftOK sa) (hRb : RightOK sb) (hS : StrictCoords sa sb) (hsep : Separated sa sb)
+    (hv : (Row.create P [sa, sb] a.queryId a.referenceId a.queryLength a.referenceLength a.rev).isOneToOneAndCollinear = true)
+    (hU : ∀ x ∈ sa.items, x.isPair = false → x.lessOnBoth pb = true) :
+    ∃ j, joinRows P a b = .ok (some j) ∧ j.pairs = sa.pairs ++ sb.pairs := by
+  have hAll : ∀ x ∈ sa.items, x.lessOnBoth pb = true := by
+    intro x hx
+    cases x with
+    | pair p =>
+      have := hsep p (mem_pairs.mpr hx) pb (List.mem_of_head? hpb)
+      simp only [APos.lessOnBoth, lessOnBoth_iff]; omega
+    | uref r => exact hU _ hx rfl
+    | uqry q s => exact hU _ hx rfl
+  obtain ⟨l, r, br, hB⟩ := resolve_total P sa sb hLa hRb
+  obtain ⟨rfl, rfl⟩ := resolve_id hB hLa hRb hpb hsep hAll
+  have hres : resolvePair P l r = .ok (l, r) := ConflictAll.resolvePair_ok_iff.mpr ⟨br, hB⟩
+  obtain ⟨ta, hta⟩ : ∃ ta, a.pairs = pa :: ta := by
+    rw [row_pairs_single ha]
+    cases hp : l.pairs with
+    | nil => rw [hp] at hpa; cases hpa
+    | cons x xs => rw [hp] at hpa; injection hpa with hpa; exact ⟨xs, by rw [hpa]⟩
+  obtain ⟨tb, htb⟩ : ∃ tb, b.pairs = pb :: tb := by
+    rw [row_pairs_single hb]
+    cases hp : r.pairs with
+    | nil => rw [hp] at hpb; cases hpb
+    | cons x xs => rw [hp] at hpb; injection hpb with hpb; exact ⟨xs, by rw [hpb]⟩
+  refine ⟨Row.create P [l, r] a.queryId a.referenceId a.queryLength a.referenceLength a.rev, ?_, ?_⟩
+  · unfold joinRows
+    rw [hta, htb, ha, hb]
+    simp only [if_pos hlt, hres, bind, Except.bind, pure, Except.pure, hv, if_true]
+  · show [l, r].flatMap Seg.pairs = _
+    simp
+
+/-- `joinRows_union` is false as stated: the unpaired reference label `⟨9, 1000⟩` between the two
+    pairs of `sa` is not before the first pair of `sb`, the step takes the `dropLeft` branch and the
+    pair `(2, 2)` is lost although every hypothesis holds. -/
+theorem joinRows_union_counterexample :
+    ∃ (P : Params) (a b : Row) (sa sb : Seg) (pa pb : Pr),
+      a.segments = [sa] ∧ b.segments = [sb] ∧
+      sa.pairs.head? = some pa ∧ sb.pairs.head? = some pb ∧ pa.r.pos < pb.r.pos ∧
+      LeftOK sa ∧ RightOK sb ∧ StrictCoords sa sb ∧ Separated sa sb ∧
+      (Row.create P [sa, sb] a.queryId a.referenceId a.queryLength a.referenceLength a.rev).isOneToOneAndCollinear = true ∧
+      ∃ j, joinRows P a b = .ok (some j) ∧ j.pairs ≠ sa.pairs ++ sb.pairs := by
+  refine ⟨⟨1000, 1, -250, 1500, 1000, 1200⟩,
+    { (default : Row) with segments := [⟨0, [.pair ⟨⟨1, 10⟩, ⟨1, 10⟩, 0, 0⟩, .uref ⟨9, 1000⟩, .pair ⟨⟨2, 20⟩, ⟨2, 20⟩, 900, 0⟩]⟩] },
+    { (default : Row) with segments := [⟨0, [.pair ⟨⟨6, 60⟩, ⟨6, 60⟩, 0, 0⟩, .pair ⟨⟨7, 70⟩, ⟨7, 70⟩, 0, 0⟩]⟩] },
+    ⟨0, [.pair ⟨⟨1, 10⟩, ⟨1, 10⟩, 0, 0⟩, .uref ⟨9, 1000⟩, .pair ⟨⟨2, 20⟩, ⟨2, 20⟩, 900, 0⟩]⟩,
+    ⟨0, [.pair ⟨⟨6, 60⟩, ⟨6, 60⟩, 0, 0⟩, .pair ⟨⟨7, 70⟩, ⟨7, 70⟩, 0, 0⟩]⟩,
+    ⟨⟨1, 10⟩, ⟨1, 10⟩, 0, 0⟩, ⟨⟨6, 60⟩, ⟨6, 60⟩, 0, 0⟩, rfl, rfl, rfl, rfl, by decide, ?_, ?_, ?_, ?_, ?_, ?_⟩
+  · exact ⟨by unfold PyNodup; decide +kernel, Or.inr ⟨_, rfl⟩, by unfold PairsAscending; decide +kernel⟩
+  · exact ⟨by unfold PyNodup; decide +kernel, Or.inr ⟨_, rfl⟩, by unfold PairsAscending; decide +kernel⟩
+  · unfold StrictCoords; decide +kernel
+  · unfold Separated; decide +kernel
+  · decide +kernel
+  · apply ex_of_opt
+    decide +kernel
+
+/-- hence the universally quantified statement `Coma.Proofs.joinRows_union` cannot be proved -/
+theorem joinRows_union_false :
+    ¬ ∀ (P : Params) (a b : Row) (sa sb : Seg) (pa pb : Pr),
+      a.segments = [sa] → b.segments = [sb] →
+      sa.pairs.head? = some pa → sb.pairs.head? = some pb → pa.r.pos < pb.r.pos →
+      LeftOK sa → RightOK sb → StrictCoords sa sb → Separated sa sb →
+      (Row.create P [sa, sb] a.queryId a.referenceId a.queryLength a.referenceLength a.rev).isOneToOneAndCollinear = true →
+      ∃ j, joinRows P a b = .ok (some j) ∧ j.pairs = sa.pairs ++ sb.pairs := by
+  intro H
+  obtain ⟨P, a, b, sa, sb, pa, pb, h1, h2, h3, h4, h5, h6, h7, h8, h9, h10, j, hj, hne⟩ :=
+    joinRows_union_counterexample
+  obtain ⟨j', hj', he⟩ := H P a b sa sb pa pb h1 h2 h3 h4 h5 h6 h7 h8 h9 h10
+  rw [hj] at hj'
+  injection hj' with hj'
+  injection hj' with hj'
+  subst hj'
+  exact hne he
+
+end Coma.Proofs.Modes
+
 namespace Coma.Proofs
-open Coma Coma.Spec
+open Coma Coma.Spec Coma.Proofs.Modes
 
 theorem mode_files (cfg : Cfg) (refs : List OMap) (t : SeedTable) (qs : List OMap) (it : Int)
     (oa oj os : Output)
@@ -8,18 +650,48 @@ theorem mode_files (cfg : Cfg) (refs : List OMap) (t : SeedTable) (qs : List OMa
     (hs : execute cfg .separate refs t qs it = .ok os) :
     oa.main = oj.main ∧
     (∃ f1 f2 s1, oa.extra = [(1, f1), (2, f2)] ∧ os.extra = [(1, s1)] ∧ f1 = os.main ∧ f2 = s1) := by
-  sorry
+  obtain ⟨first, second, h1, h2⟩ := execute_prefix (by decide) ha
+  obtain ⟨ja, sa, hra, rfl⟩ := execute_all h1 h2 ha
+  obtain ⟨jj, sj, hrj, rfl⟩ := execute_joined h1 h2 hj
+  rw [execute_separate h1 h2] at hs
+  injection hs with hs
+  subst hs
+  rw [hra] at hrj
+  injection hrj with hrj
+  injection hrj with hj1 hj2
+  subst hj1
+  exact ⟨rfl, _, _, _, rfl, rfl, (filterBest_idem first).symm, rfl⟩
 
 theorem aligned_rest_flags (cfg : Cfg) (refs : List OMap) (t : SeedTable) (qs : List OMap) (it : Int)
     (os : Output) (hs : execute cfg .separate refs t qs it = .ok os) :
     (∀ r ∈ os.main, r.alignedRest = false) ∧ (∀ f ∈ os.extra, ∀ r ∈ f.2, r.alignedRest = true) := by
-  sorry
+  obtain ⟨first, second, h1, h2⟩ := execute_prefix (by decide) hs
+  rw [execute_separate h1 h2] at hs
+  injection hs with hs
+  subst hs
+  constructor
+  · intro r hr
+    exact executeSingle_flag h1 r (filterBest_mem (filterBest_mem hr))
+  · intro f hf r hr
+    simp only [List.mem_singleton] at hf
+    subst hf
+    exact secondPass_flag h2 r (filterBest_mem hr)
 
 theorem resolveRows_partition (P : Params) (d : Int) (rows joined separate : List Row)
     (h : resolveRows P d rows = .ok (joined, separate))
     (h2 : ∀ q r, (rows.filter (fun x => x.queryId = q ∧ x.referenceId = r)).length ≤ 2) :
     separate.length + 2 * joined.length = rows.length ∧ (∀ x ∈ separate, x ∈ rows) := by
-  sorry
+  rw [resolveRows_eq] at h
+  have hlen : ∀ g ∈ groupsOf rows, g.length ≤ 2 := by
+    intro g hg
+    obtain ⟨q, r, rfl⟩ := groupsOf_class hg
+    exact h2 q r
+  obtain ⟨h1, h3⟩ := resolveGroups_count h hlen
+  rw [groupsOf_sum_length] at h1
+  refine ⟨h1, ?_⟩
+  intro x hx
+  obtain ⟨g, hg, hxg⟩ := h3 x hx
+  exact groupsOf_mem hg x hxg
 
 theorem resolveRows_eligibility (P : Params) (d : Int) (rows joined separate : List Row)
     (h : resolveRows P d rows = .ok (joined, separate)) :
@@ -27,22 +699,50 @@ theorem resolveRows_eligibility (P : Params) (d : Int) (rows joined separate : L
       x.queryId = y.queryId ∧ x.referenceId = y.referenceId ∧ x.rev = y.rev ∧
       iabs (max x.rStart y.rStart - min x.rEnd y.rEnd) ≤ d ∧
       joinRows P x y = .ok (some j) := by
-  sorry
+  rw [resolveRows_eq] at h
+  intro j hj
+  obtain ⟨g, hg, x, y, rest, rfl, hov, hjn⟩ := resolveGroups_joined h j hj
+  have hx : x ∈ x :: y :: rest := List.mem_cons_self
+  have hy : y ∈ x :: y :: rest := List.mem_cons_of_mem _ List.mem_cons_self
+  unfold checkOverlap at hov
+  simp only [Bool.and_eq_true, decide_eq_true_eq] at hov
+  obtain ⟨⟨h1, h2⟩, h3⟩ := hov
+  exact ⟨x, groupsOf_mem hg x hx, y, groupsOf_mem hg y hy, groupsOf_qid hg x hx y hy, h2, h1, h3, hjn⟩
 
 theorem joinRows_subset (P : Params) (a b j : Row) (h : joinRows P a b = .ok (some j)) :
     (∀ p ∈ j.pairs, p ∈ a.pairs ∨ p ∈ b.pairs) ∧
     j.queryId = a.queryId ∧ j.referenceId = a.referenceId ∧ j.rev = a.rev ∧
     j.queryLength = a.queryLength ∧ j.referenceLength = a.referenceLength ∧
     j.pairs ≠ [] ∧ ValidMatching j.rev (sitePairs j.pairs) := by
-  sorry
+  obtain ⟨pa, pb, sa, sb, ta, tb, ua, ub, l, r, h1, h2, h3, h4, hres, hj, hc⟩ := joinRows_ok h
+  obtain ⟨hne, hvm⟩ := valid_of_check hc
+  refine ⟨?_, by rw [hj]; rfl, by rw [hj]; rfl, by rw [hj]; rfl, by rw [hj]; rfl, by rw [hj]; rfl, hne, hvm⟩
+  intro p hp
+  have hjp : j.pairs = l.pairs ++ r.pairs := by
+    rw [hj]; show [l, r].flatMap Seg.pairs = _; simp
+  rw [hjp] at hp
+  rcases hres with ⟨_, hr⟩ | ⟨_, hr⟩
+  · obtain ⟨br, hB⟩ := ConflictAll.resolvePair_ok_iff.mp hr
+    obtain ⟨s1, s2, _, _⟩ := resolve_sublist P _ _ _ _ _ hB
+    rcases List.mem_append.mp hp with hp | hp
+    · exact Or.inl (head_pairs_subset h3 p (seg_pairs_subset s1 p hp))
+    · exact Or.inr (head_pairs_subset h4 p (seg_pairs_subset s2 p hp))
+  · obtain ⟨br, hB⟩ := ConflictAll.resolvePair_ok_iff.mp hr
+    obtain ⟨s1, s2, _, _⟩ := resolve_sublist P _ _ _ _ _ hB
+    rcases List.mem_append.mp hp with hp | hp
+    · exact Or.inr (head_pairs_subset h4 p (seg_pairs_subset s1 p hp))
+    · exact Or.inl (head_pairs_subset h3 p (seg_pairs_subset s2 p hp))
 
+/-- FALSE as stated — see `Modes.joinRows_union_counterexample`; the corrected statement is
+    `Modes.joinRows_union_of_unpaired_before`. -/
 theorem joinRows_union (P : Params) (a b : Row) (sa sb : Seg) (pa pb : Pr)
     (ha : a.segments = [sa]) (hb : b.segments = [sb])
     (hpa : sa.pairs.head? = some pa) (hpb : sb.pairs.head? = some pb) (hlt : pa.r.pos < pb.r.pos)
     (hLa : LeftOK sa) (hRb : RightOK sb) (hS : StrictCoords sa sb) (hsep : Separated sa sb)
+    (hU : ∀ x ∈ sa.items, x.isPair = false → x.lessOnBoth pb = true)
     (hv : (Row.create P [sa, sb] a.queryId a.referenceId a.queryLength a.referenceLength a.rev).isOneToOneAndCollinear = true) :
-    ∃ j, joinRows P a b = .ok (some j) ∧ j.pairs = sa.pairs ++ sb.pairs := by
-  sorry
+    ∃ j, joinRows P a b = .ok (some j) ∧ j.pairs = sa.pairs ++ sb.pairs :=
+  Modes.joinRows_union_of_unpaired_before P a b sa sb pa pb ha hb hpa hpb hlt hLa hRb hS hsep hv hU
 
 theorem join_drops_segments_counterexample :
     ∃ j, joinRows ⟨1000, 1, -250, 1500, 1000, 1200⟩
@@ -50,7 +750,8 @@ theorem join_drops_segments_counterexample :
                                            ⟨0, [.pair ⟨⟨3, 30⟩, ⟨3, 30⟩, 0, 0⟩, .pair ⟨⟨4, 40⟩, ⟨4, 40⟩, 0, 0⟩]⟩] }
       { (default : Row) with segments := [⟨0, [.pair ⟨⟨6, 60⟩, ⟨6, 60⟩, 0, 0⟩, .pair ⟨⟨7, 70⟩, ⟨7, 70⟩, 0, 0⟩]⟩] } = .ok (some j) ∧
       sitePairs j.pairs = [(1, 1), (2, 2), (6, 6), (7, 7)] := by
-  sorry
+  apply ex_of_opt
+  decide +kernel
 
 theorem unchecked_join_counterexample :
     ∃ j, joinRowsUnchecked ⟨1000, 1, -250, 1500, 1000, 1200⟩
@@ -58,6 +759,7 @@ theorem unchecked_join_counterexample :
       { (default : Row) with segments := [⟨50, [.pair ⟨⟨6, 60⟩, ⟨1, 10⟩, 900, 0⟩, .pair ⟨⟨7, 70⟩, ⟨2, 20⟩, 900, 0⟩, .pair ⟨⟨8, 80⟩, ⟨3, 30⟩, 0, 0⟩]⟩] } = .ok j ∧
       sitePairs j.pairs = [(1, 2), (2, 3), (8, 3)] ∧
       j.isOneToOneAndCollinear = false := by
-  sorry
+  apply ex_of_ok
+  decide +kernel
 
 end Coma.Proofs
